@@ -147,6 +147,48 @@ instance (m : List (Nat × Status)) (ff : Bool) (ns : List Nat) (v : Status) (m'
     Decidable (POutcome m ff ns v m' keys) := by
   unfold POutcome; infer_instance
 
+/-! ### callers sharing the one long-lived status store
+
+  The executor, the retry handlers and the RetryV1 handler use ONE `PropStore`. The model treats every store call as
+  atomic; `overlap` in the harness lets two callers overlap inside the database and compares with the sequential
+  orders. -/
+
+inductive SCall
+  | write (k : Nat) (v : Status)     -- StorePropStatus
+  | read (k : Nat)                   -- PropStatus
+  | record (k : Nat)                 -- the BTC executor records k executed (storeProposalsStatus)
+  | retry (k : Nat)                  -- the retry filter on the deposit with key k
+deriving Repr
+
+inductive SRes | done | status (v : Status) | emitted (n : Nat)
+deriving DecidableEq, Repr
+
+def SCall.key : SCall → Nat
+  | .write k _ => k | .read k => k | .record k => k | .retry k => k
+
+def SCall.run (m : List (Nat × Status)) : SCall → SRes × List (Nat × Status)
+  | .write k v => (.done, (k, v) :: m)
+  | .read k    => (.status (lookup m k), m)
+  | .record k  => (.done, (storeStatus ⟨m, []⟩ [k] .executed).m)
+  | .retry k   =>
+    let r := filterBy (fun _ => true) ⟨m, []⟩ [⟨0, 0, k, 0⟩]
+    (.emitted r.1.length, r.2.m)
+
+/-- `a` then `b` -/
+def runTwo (m : List (Nat × Status)) (a b : SCall) : SRes × SRes × List (Nat × Status) :=
+  let x := a.run m
+  let y := b.run x.2
+  (x.1, y.1, y.2)
+
+/-- PLinear: two overlapping calls (results `ra`, `rb`, statuses `m'` of `keys` afterwards) look like one of the two
+    sequential orders -/
+def PLinear (m : List (Nat × Status)) (a b : SCall) (ra rb : SRes) (m' : List (Nat × Status)) (keys : List Nat) : Prop :=
+  (ra = (runTwo m a b).1 ∧ rb = (runTwo m a b).2.1 ∧ ∀ k ∈ keys, lookup m' k = lookup (runTwo m a b).2.2 k) ∨
+  (rb = (runTwo m b a).1 ∧ ra = (runTwo m b a).2.1 ∧ ∀ k ∈ keys, lookup m' k = lookup (runTwo m b a).2.2 k)
+
+instance (m : List (Nat × Status)) (a b : SCall) (ra rb : SRes) (m' : List (Nat × Status)) (keys : List Nat) :
+    Decidable (PLinear m a b ra rb m' keys) := by unfold PLinear; infer_instance
+
 /-! ### histories: BTC executor + retries over one status store -/
 
 structure HState where
@@ -208,6 +250,31 @@ def seqOk (st : HState) : HOp → Bool
 def seqRun (u : Bool) : HState → List HOp → Bool
   | _, [] => true
   | st, op :: r => seqOk st op && seqRun u (hstep u st op).2 r
+
+/-- what ONE operation may do to the status records (keys below `n`), in ANY history, sequential or not:
+    a delivery only touches executable (missing / failed) records and leaves them pending or failed; a retry only releases pending records to failed; a session that
+    runs into its signing time-out (or is otherwise lost) never overwrites an `executed` record. Only the recording of
+    an execution's own outcome is not constrained here (see `executed_final`). -/
+def stepOk (op : HOp) (prev next : List (Nat × Status)) (n : Nat) : Bool :=
+  (List.range n).all fun k =>
+    let a := lookup prev k
+    let b := lookup next k
+    match op with
+    | .deliver _ _   => b == a || (canExec a && (b == .pending || b == .failed))
+    | .retry _ _ _ _ => b == a || (a == .pending && b == .failed)
+    | .lost _        => a != .executed || b == .executed
+    | .outcome _ _ _ => true
+
+/-- record `k` belongs to the execution whose outcome `op` records -/
+def touches (st : HState) (op : HOp) (k : Nat) : Bool :=
+  match op with
+  | .outcome id _ _ => (keysOf st id).contains k
+  | _ => false
+
+/-- no later outcome recording concerns record `k` -/
+def noLaterOutcome (u : Bool) (k : Nat) : HState → List HOp → Bool
+  | _, [] => true
+  | st, op :: r => !touches st op k && noLaterOutcome u k (hstep u st op).2 r
 
 /-- executed is final along a trace of status maps -/
 def finalAlong (k : Nat) : List (List (Nat × Status)) → Bool
